@@ -477,7 +477,9 @@ func (p *Packer) Unpack(r io.Reader, dst string) error {
 		// A file or directory entry replaces a symlink extracted earlier at
 		// the same path. It must never be written, or have its permissions
 		// and times restored, through that link.
-		if info.IsDirectory() || info.IsRegular() {
+		// The destination itself is not an entry: when it is a symlink to
+		// the directory to unpack into, it stays one.
+		if (info.IsDirectory() || info.IsRegular()) && filepath.Clean(info.Path) != filepath.Clean(dst) {
 			if fi, err := os.Lstat(info.Path); err == nil && fi.Mode()&os.ModeSymlink != 0 {
 				if err := os.Remove(info.Path); err != nil {
 					return fmt.Errorf("failed to replace symlink %q: %w", info.Path, err)
